@@ -1016,7 +1016,12 @@ class CAMTransmissionManagement:
         )
         self.btp_router.btp_data_request(request)
         if self.ca_basic_service_ldm is not None:
-            self.ca_basic_service_ldm.add_provider_data_to_ldm(cam.cam)
+            try:
+                self.ca_basic_service_ldm.add_provider_data_to_ldm(cam.cam)
+            except Exception:
+                # The CAM has already been handed to BTP: a failing local LDM feed must not
+                # make the transmission count as skipped (Annex B.2.5 covers construction).
+                self.logging.exception("Could not add the transmitted CAM to the LDM")
         self.logging.info(
             "Sent CAM: generationDeltaTime=%d, stationId=%d",
             cam.cam["cam"]["generationDeltaTime"],
